@@ -135,6 +135,42 @@ def add_root_mutations(rng, ts, k=None):
     return tables.tree_sequence()
 
 
+def detach_sample(rng, ts, k=1):
+    """missing data: make k samples isolated over an interior interval (their edges are clipped there), then
+    simplify, so that local trees differ in the number of attached sample tips.  Returns None when the genome is
+    too short.  Mutations above a detached sample inside its interval are dropped."""
+    import numpy as np
+    L = int(ts.sequence_length)
+    if L < 3 or ts.num_samples < 3:
+        return None
+    tables = ts.dump_tables()
+    samples = list(ts.samples())
+    rng.shuffle(samples)
+    for s in samples[:k]:
+        a = rng.randint(0, L - 2)
+        b = rng.randint(a + 1, L - 1) if rng.random() < 0.7 else L
+        edges = tables.edges.copy()
+        tables.edges.clear()
+        for e in edges:
+            if e.child == s and e.left < b and e.right > a:
+                if e.left < a:
+                    tables.edges.add_row(e.left, a, e.parent, e.child)
+                if e.right > b:
+                    tables.edges.add_row(b, e.right, e.parent, e.child)
+            else:
+                tables.edges.add_row(e.left, e.right, e.parent, e.child)
+        keep = np.array([not (m.node == s and a <= tables.sites[m.site].position < b) for m in tables.mutations], dtype=bool)
+        if not keep.all():
+            tables.mutations.keep_rows(keep)
+    tables.sort()
+    tables.build_index()
+    tables.compute_mutation_parents()
+    tables.simplify(samples=np.array(sorted(ts.samples()), dtype=np.int32), filter_sites=False)
+    if tables.edges.num_rows == 0:
+        return None
+    return tables.tree_sequence()
+
+
 EXOTIC_KINDS = ("extra_flags", "permute_nodes", "root_mutations", "monomorphic_sites", "unknown_mutation_times",
                 "states", "populations")
 
